@@ -24,6 +24,8 @@ type CrashWorld struct {
 	stepIdx    int
 	fired      map[int]bool
 	pending    *Fault // crash requested by the fault plan, to be carried out
+	busyNext   bool   // the next store call meets a held write lock
+	busyOp     bool
 	gen        int
 	base       string
 	totalOps   int // disk ops over all incarnations
@@ -92,6 +94,14 @@ func (w *CrashWorld) decide(kind, path string, n int) DiskDecision {
 
 func (w *CrashWorld) wrap(inner queue.Store) queue.Store {
 	return &SimStore{Inner: inner, After: func(string) {
+		if w.busyOp {
+			// the other process releases the write lock once the call has returned
+			w.busyOp = false
+			w.Disk.SetBusy(false)
+			if w.Disk.BusyRefusals > 0 {
+				w.Res.probe("crash.write_lock_contention")
+			}
+		}
 		if w.Disk.Dead() {
 			panic(crashSentinel{})
 		}
@@ -406,8 +416,23 @@ func RunCrashProgram(p *Program) *Result {
 				w.assume = nil
 				w.restartLoop(w.pending.Action, w.pending.ImgSeed, false)
 			}
+		case "lockbusy":
+			w.busyNext = true
+			r.logf("another process takes the write lock for the duration of the next call")
 		default:
+			if w.busyNext && s.Op != "advance" {
+				// the call runs against a held write lock: it fails as busy once the
+				// retry budget is spent (an injected fault: in doubt, all or nothing)
+				w.busyNext, w.busyOp = false, true
+				w.Disk.SetBusy(true)
+				w.faultInStep = true
+				r.fault("lock.busy")
+			}
 			crashed := w.execGuarded(s)
+			if w.busyOp {
+				w.busyOp = false
+				w.Disk.SetBusy(false)
+			}
 			if crashed {
 				if w.pending == nil {
 					r.Trouble = "crash without a pending fault"
@@ -491,7 +516,7 @@ func (w *CrashWorld) drain() {
 var crashWeights = map[string]int{
 	"enqueue": 30, "enqueue_batch": 10, "dequeue": 18, "advance": 8,
 	"ack": 8, "nack": 6, "dead": 4, "extend": 2, "ack_batch": 3, "nack_batch": 2, "dead_batch": 1,
-	"checkpoint": 5, "crash": 4, "stats": 1, "visit": 3,
+	"checkpoint": 5, "crash": 4, "stats": 1, "visit": 3, "lockbusy": 3,
 }
 
 func GenCrashProgram(t *rapid.T) *Program {
